@@ -188,6 +188,9 @@ inline bool past_deadline() { return deadline() > 0 && now_s() > deadline(); }
 // re-run, up to max_retries times. Returns the JSON of the last (successful) run; crash
 // violations are appended by the child itself from the skip list.
 struct CrashInfo { std::string step; std::string how; };
+#ifdef VERIF_COVERAGE
+extern "C" void __gcov_dump(void);
+#endif
 
 inline std::string run_isolated(const std::function<std::string(const std::vector<CrashInfo> &)> &fn,
 		double hang_s = 60.0, int max_retries = 12) {
@@ -211,6 +214,9 @@ inline std::string run_isolated(const std::function<std::string(const std::vecto
 			}
 			close(pfd[1]);
 			fflush(stdout); fflush(stderr);
+#ifdef VERIF_COVERAGE
+			__gcov_dump();
+#endif
 			_exit(0);
 		}
 		close(pfd[1]);
